@@ -170,6 +170,7 @@ def check_plan(c, ctx, tag):
     ctx.check(got.dtype == (np.float64 if (r2c and not fwd) else np.complex128), ("result_dtype", cls),
               got=str(got.dtype))
     ctx.close(got, want, ("dft", cls), rtol=0, atol=tol, dims=dims, nt=nt)
+    got_then = got.copy()
     # a second, different input through the same plan, then the first again: no state may leak between
     # calls (padding columns of the in-place real layout, c2r destroying its input buffer)
     ncall = int(c.get("ncall", 1))
@@ -177,6 +178,8 @@ def check_plan(c, ctx, tag):
         x2, want2, _ = make_input_and_reference(dims, nt, fwd, r2c, bf, c["seed"] + 7919 * k)
         got2 = w.call(x2)
         ctx.close(got2, want2, ("dft_repeated_call", cls), rtol=0, atol=TOL * n * float(np.max(np.abs(x2))))
+        # the array returned by the first call is the caller's: later calls on the plan do not rewrite it
+        ctx.equal_bits(got, got_then, ("result_overwritten_by_later_call", cls))
     # wrongly shaped input: ValueError, plan still usable
     b = c.get("bad")
     if b is not None:
@@ -194,7 +197,7 @@ def check_plan(c, ctx, tag):
     if b is not None or ncall > 1:
         again = w.call(x0)
         ctx.check(lib.fftw_shim_error() == 0, ("extent_flag", cls), flag=lib.fftw_shim_error())
-        ctx.equal_bits(again, got, ("plan_state_after_other_calls", cls))
+        ctx.equal_bits(again, got_then, ("plan_state_after_other_calls", cls))
     ctx.check(lib.fftw_shim_live_allocs() == live1, ("alloc_during_calls", cls),
               got=lib.fftw_shim_live_allocs() - live1)
     ctx.check(lib.fftw_shim_live_plans() - plans0 == 1, ("plan_count_during_calls", cls),
